@@ -243,3 +243,42 @@ class Gen:
             body = [o for s in sets for o in s]
             msgs.append(self.header(nrec, len(body)) + body)
         return msgs
+
+
+def session(rng, proto, ntpl=3, ndata=12):
+    """(template-only messages, data-only messages) of one exporter: distinct datagrams of mixed sizes"""
+    g = Gen(rng, proto)
+    tplset = {"ipfix": (2, 3), "v9": (0, 1)}[proto]
+    tpls, tmsgs = [], []
+    for k in range(ntpl):
+        t = g.template(256 + k * 7)
+        tpls.append(t)
+        body = g.enc_tpl_rec(t)
+        pad = 0 if proto == "ipfix" else (-len(body)) % 4
+        s = g.enc_set(tplset[1] if t["scope"] else tplset[0], body, pad)
+        tmsgs.append(g.header(1, len(s)) + s)
+    dmsgs, seen = [], set()
+    while len(dmsgs) < ndata:
+        sets, nrec = [], 0
+        for _ in range(rng.choice([1, 1, 2, 3])):
+            t = rng.choice(tpls)
+            body = []
+            for _ in range(rng.choice([1, 2, 5, 20])):
+                rec = g.enc_record(t)
+                if len(body) + len(rec) > 500:
+                    break
+                body += rec
+                nrec += 1
+            if not body:
+                continue
+            ml = g.minlen(t)
+            pad = (rng.randrange(0, min(ml, 4)) if proto == "ipfix" else ((-len(body)) % 4 if (-len(body)) % 4 < ml else 0))
+            sets.append(g.enc_set(t["id"], body, pad))
+        if not sets:
+            continue
+        body = [o for s in sets for o in s]
+        m = g.header(nrec, len(body)) + body
+        if len(m) <= 1400 and tuple(m) not in seen:
+            seen.add(tuple(m))
+            dmsgs.append(m)
+    return tmsgs, dmsgs
